@@ -32,13 +32,18 @@ def _shared_variants():
     ]
 
 
-def make_duplicate_harness(cases):
+def make_duplicate_harness(cases, prepare=None):
     def harness(e):
         from pyoak.node import NODE_REGISTRY, ASTNode
 
         reset_all()
-        cno = e.choice(len(cases), "tree")
-        recipe, shared = cases[cno]
+        extra_info: dict[str, Any] = {}
+        local_cases = cases
+        if prepare is not None:
+            shapes_, extra_info = prepare(e)
+            local_cases = [(s_, False) for s_ in shapes_]
+        cno = e.choice(len(local_cases), "tree")
+        recipe, shared = local_cases[cno]
         if shared is False and e.flag("last_leaf_falsy"):
             from models.shapes import falsify
 
@@ -70,7 +75,7 @@ def make_duplicate_harness(cases):
         orig_registered_objs = {id(n) for _, n in orig if ASTNode.get_any(n.id) is n}
         before = set(NODE_REGISTRY.keys())
         copy = root.duplicate()
-        scenario = {"tree": describe(recipe), "shared_subtree": shared, "twins": twins, "original": detached}
+        scenario = {"tree": describe(recipe), "shared_subtree": shared, "twins": twins, "original": detached, **extra_info}
         if not (copy == root) or copy.content_id != root.content_id:
             e.fail("duplicate-not-equal-to-original", scenario=scenario)
         new_nodes = _all_nodes(recipe, copy)
@@ -101,7 +106,7 @@ def make_duplicate_harness(cases):
             if (ASTNode.get_any(o.id) is o) != (id(o) in orig_registered_objs):
                 e.fail("duplicate-changed-registration-of-original", scenario=scenario)
         _ = before, keep
-        e.distinct((cno, twins, detached))
+        e.distinct((cno, twins, detached, tuple(extra_info.values())))
         return scenario
 
     return harness
@@ -236,6 +241,10 @@ def spec(tier: str, seed: int) -> Spec:
     cases = shapes + _shared_variants()
     chunk = 12
     fams = [Family(f"duplicate[{k}:{k + chunk}]", make_duplicate_harness(cases[k : k + chunk]), variables="selectors: tree, twins, state of the original") for k in range(0, len(cases), chunk)]
+    from checks.C05 import _mi_prepare
+
+    for first in ("MNamed", "MBodied", "MFunc", "MEmpty"):
+        fams.append(Family(f"duplicate-multiple-inheritance-first-{first}", make_duplicate_harness([], prepare=lambda e, _f=first: _mi_prepare(e, (_f,))), variables="as above; freshly created classes with multiple inheritance and empty bodies; the class used first is fixed per family"))
     fams.append(Family("replace", replace_harness, variables="selectors: base, twin (and creation order), state, changed fields, operation"))
     return Spec(
         families=fams,
